@@ -482,6 +482,59 @@ M('c17-include-resume-offset', 'C17', 'src/extensions/qconfig.c',
   'LP3', 'qconfig_parse_file', 'scan resumes at an offset measured in the old document')
 
 
+# ---- C06 -------------------------------------------------------------------------------------
+M('c06-usedslots-only-first', 'C06', 'src/containers/qhasharr.c',
+  "            // increase stored key counter\n            tbldata->num++;\n        }\n        tblslots[newidx].datasize = copysize;\n        savesize += copysize;\n\n        // increase used slot counter\n        tbldata->usedslots++;\n",
+  "            // increase stored key counter\n            tbldata->num++;\n            tbldata->usedslots++;\n        }\n        tblslots[newidx].datasize = copysize;\n        savesize += copysize;\n",
+  'K1', 'put_data', 'extension blocks are no longer counted as used slots')
+M('c06-num-every-chunk', 'C06', 'src/containers/qhasharr.c',
+  "            // increase stored key counter\n            tbldata->num++;\n        }\n        tblslots[newidx].datasize = copysize;",
+  "        }\n        tbldata->num++;\n        tblslots[newidx].datasize = copysize;",
+  'K1', 'put_data', 'key counter incremented for every chunk')
+M('c06-release-no-usedslots', 'C06', 'src/containers/qhasharr.c',
+  "        remove_slot(tbl, idx);\n        tbldata->usedslots--;\n\n        if (link == -1)\n            break;",
+  "        remove_slot(tbl, idx);\n\n        if (link == -1) {\n            tbldata->usedslots--;\n            break;\n        }",
+  'K2', 'remove_data', 'only the last slot of a chain is given back to the used-slot count')
+M('c06-no-rollback', 'C06', 'src/containers/qhasharr.c',
+  "            if (tmpidx < 0) {\n                remove_data(tbl, idx);\n                errno = ENOBUFS;\n                return false;\n            }",
+  "            if (tmpidx < 0) {\n                errno = ENOBUFS;\n                return false;\n            }",
+  'K3', 'put_data', 'out-of-space exit leaves the partially written entry in place')
+M('c06-match-without-length', 'C06', 'src/containers/qhasharr.c',
+  "                if (namesize == tblslots[idx].data.pair.namesize) {\n                    if (namesize <= Q_HASHARR_NAMESIZE) {",
+  "                if (namesize == tblslots[idx].data.pair.namesize || namesize > Q_HASHARR_NAMESIZE) {\n                    if (namesize <= Q_HASHARR_NAMESIZE) {",
+  'K4', 'get_idx', 'long keys matched without comparing their length')
+M('c06-match-without-digest', 'C06', 'src/containers/qhasharr.c',
+  "                        Q_HASHARR_NAMESIZE)\n                                && !memcmp(namemd5,\n                                           tblslots[idx].data.pair.namemd5,\n                                           16)) {",
+  "                        Q_HASHARR_NAMESIZE)) {",
+  'K4', 'get_idx', 'truncated keys matched by prefix only')
+M('c06-collision-release-no-counter', 'C06', 'src/containers/qhasharr.c',
+  "        tblslots[tblslots[idx].hash].count--;\n\n        // remove data\n        remove_data(tbl, idx);",
+  "        // remove data\n        remove_data(tbl, idx);", 'I11', 'qhasharr_remove_by_idx',
+  'collision entry released without decrementing the leading slot counter')
+
+
+M('c17-section-depth-unbounded', 'C17', 'src/extensions/qaconf.c',
+  "            if (cbdata->level >= MAX_SECTIONLEVEL) {\n                EXITLOOP(\"Sections are nested too deeply.\");\n            }\n",
+  "            if (cbdata->level >= MAX_SECTIONLEVEL) {\n                DEBUG(\"Sections are nested deeply.\");\n            }\n",
+  'LP4', '_parse_inline', 'the nesting limit is tested but the descent goes on')
+M('c17-hexval-plain-char', 'C17', 'src/utilities/qencode.c',
+  "        *pBinPt++ = (HEXMAPTBL[(unsigned char) (*pEncPt)] << 4)",
+  "        *pBinPt++ = (HEXMAPTBL[(int) (*pEncPt)] << 4)",
+  'W3', 'qhex_decode', 'hex table indexed by a plain char')
+M('c19-store-before-move', 'C19', 'src/utilities/qstring.c',
+  "    memmove((void *) dst, (void *) src, nbytes);\n    dst[nbytes] = '\\0';\n",
+  "    dst[nbytes] = '\\0';\n    memmove((void *) dst, (void *) src, nbytes);\n",
+  'Q3', 'qstrncpy', 'terminator stored before the overlapping move')
+M('c20-number-by-strtod', 'C20', 'src/extensions/qaconf.c',
+  "static int _is_str_number(const char *s) {\n    char *op = (char *) s;",
+  "static int _is_str_number(const char *s) {\n    char *endp0;\n    if (*s != '\\0' && (strtod(s, &endp0), *endp0 == '\\0') && strchr(s, 'e') != NULL) return 2;\n    char *op = (char *) s;",
+  'B8', '_is_str_number', 'exponent spellings accepted through strtod')
+M('c20-trim-after-expansion', 'C20', 'src/extensions/qconfig.c',
+  "        qstrtrim(value);\n        qstrtrim(name);\n",
+  "        qstrtrim(name);\n",
+  'B9', 'qconfig_parse_str', 'raw value no longer trimmed before the expansion')
+
+
 def run_selftest(prop, rep, rule_fn, config='cmake-release'):
     """Apply every mutant of `prop` to a scratch copy, run rule_fn(prog, report) on it, and
     require a finding of the expected rule (and function)."""
